@@ -9,7 +9,7 @@ LEVEL = "exploration"
 RULE = (
     "enumerated: header 0-3 x number of rows 0-6 (header rows included) x one bad row (rejected cell, or wrong item count "
     "for delimited data) at every position incl. inside the header, or no bad row x validation limit in {none, 0 .. "
-    "rows+1} x API {cutplace.rows in yield mode, cutplace.validate, applications.main --until (in-process)} x storage "
+    "rows+1} x API {cutplace.rows in yield mode, cutplace.validate, applications.main --until (in-process); sampled: two passes over one Reader, the CID named by a path whose file is rewritten for every case} x storage "
     "{delimited, fixed; thorough also ODS and XLSX}. Expected from M-reader with the (header, limit) window; for "
     "cutplace.validate a generator monitor on Reader.rows additionally counts the rows pulled (must not exceed the limit). "
     "A case is (header, limit, rows, bad position, bad kind, API, storage) - distinct by construction; non-trivial when "
@@ -78,6 +78,26 @@ def check(ctx, kind, store, header, nrows, bad_at, bad_kind, limit, api):
                             break
                 ctx.violation(key, case, "cutplace.rows produced other items than the (header, limit) window allows",
                               expected=[[w[0], w[1]] for w in want], observed=gen.describe_items(got))
+        elif api in ("reader-twice", "rows-cid-path"):
+            if api == "rows-cid-path":
+                # the CID is named by its path; the file at that path is rewritten for every case
+                cid_path = os.path.join(ctx.tmp, "cid_by_path.csv")
+                with open(cid_path, "w", encoding="utf-8", newline="") as f:
+                    f.write(storage.delimited_text(model.cid_rows()))
+                passes = [list(cutplace.rows(cid_path, source, on_error="yield", validate_until=limit))]
+            else:
+                # one Reader, two complete passes over the same file
+                reader = validio.Reader(gen.load_cid(model), source, on_error="yield", validate_until=limit)
+                passes = [list(reader.rows()), list(reader.rows())]
+                reader.close()
+            want = run["items"]
+            for number, items in enumerate(passes, 1):
+                got = [("error", i, gen.snapshot(i)) if isinstance(i, Exception) else ("row", i) for i in items]
+                ok = len(got) == len(want) and all(g[0] == w[0] and (g[0] == "error" or list(g[1]) == list(w[1])) for g, w in zip(got, want))
+                if not ok:
+                    ctx.violation("C07:%s:pass-%d" % (api, number), case, "pass %d produced other items than the (header, limit) window allows" % number,
+                                  expected=[[w[0], w[1]] for w in want], observed=gen.describe_items(got))
+                    break
         elif api == "validate":
             cid = gen.load_cid(model)
             log = []
@@ -165,6 +185,9 @@ def run(ctx):
                                     check(ctx, kind, file_store, header, nrows, bad_at, bad_kind, limit, "main" if limit is not None or index % 2 else "main-minus-one")
                                 else:
                                     check(ctx, kind, store, header, nrows, bad_at, bad_kind, limit, api)
+                                    if api == "rows" and index % 5 == 0:
+                                        file_store = store.replace("stream", "file")
+                                        check(ctx, kind, file_store, header, nrows, bad_at, bad_kind, limit, "reader-twice" if index % 10 == 0 else "rows-cid-path")
     # a sample of ODS / XLSX in the quick tier too
     if ctx.quick:
         for store in ("ods", "xlsx"):
